@@ -141,7 +141,7 @@ async def _op(store: Any, typed: bool, kind: int, i: int, t: int, d: int) -> Non
                 s["y"] = y + c
 
 
-def run_concurrently(st: int, typed: bool, kinds: List[int], ts: List[int], ds: List[int]) -> bool:
+def run_concurrently(st: int, typed: bool, kinds: List[int], ts: List[int], ds: List[int], per_task_store: bool = False) -> bool:
     init_plain: Dict[str, Any] = {"a": None, "b": [], "c": {}, "n": 7} if typed else {"x": 0, "y": 0}
     with SqliteEnv() as env:
         if st == ST_MEM:
@@ -150,8 +150,12 @@ def run_concurrently(st: int, typed: bool, kinds: List[int], ts: List[int], ds: 
             store = env.store(TChild if typed else None)
             drive(store.set_state(TChild() if typed else DictState(x=0, y=0)))
 
+        # per_task_store: every task works through its OWN store object for the run, which is what steps of one run get from the server
+        # runtime over a SQLite workflow store (one create_state_store(run_id) per step invocation's adapter)
+        stores = [env.store(TChild if typed else None) if (per_task_store and st == ST_SQL) else store for _ in kinds]
+
         async def main() -> Any:
-            tasks = [asyncio.ensure_future(_op(store, typed, kinds[i], i, ts[i], ds[i])) for i in range(len(kinds))]
+            tasks = [asyncio.ensure_future(_op(stores[i], typed, kinds[i], i, ts[i], ds[i])) for i in range(len(kinds))]
             await asyncio.gather(*tasks)
             return await store.get_state()
 
@@ -186,6 +190,26 @@ def ob_two_tasks(st: int, typed: int, k0: int, k1: int, t0: int, t1: int, d0: in
     ds = [cint(d0, 0, 3), cint(d1, 0, 3)]
     with untraced():
         return run_concurrently(st, typed == 1, kinds, ts, ds)
+
+
+@obligation(quick=150, thorough=600, partitions_quick=[f"k0 == {k}" for k in range(3)],
+            partitions_thorough=[f"k0 == {k} and k1 == {j}" for k in range(4) for j in range(4)],
+            what="SQLite store, two concurrent tasks that each reach the run's state through their OWN SqliteStateStore object (the server "
+                 "runtime creates one per step invocation: SqliteWorkflowStore.create_state_store(run_id)): the final state equals one of "
+                 "the 2 serial results",
+            bounds={"store": "SqliteStateStore x 2 objects, one database, one run", "op kinds": "3 / 4", "instants": "0..TMAX (2 / 3)"})
+def ob_two_store_objects(k0: int, k1: int, t0: int, t1: int, d0: int, d1: int) -> bool:
+    """
+    pre: 0 <= k0 < NOPS and 0 <= k1 < NOPS
+    pre: 0 <= t0 <= TMAX and 0 <= t1 <= TMAX and 0 <= d0 <= TMAX and 0 <= d1 <= TMAX
+    pre: (k0 == 2 or d0 == 0) and (k1 == 2 or d1 == 0)
+    post: _
+    """
+    kinds = [cint(k0, 0, 3), cint(k1, 0, 3)]
+    ts = [cint(t0, 0, 3), cint(t1, 0, 3)]
+    ds = [cint(d0, 0, 3), cint(d1, 0, 3)]
+    with untraced():
+        return run_concurrently(ST_SQL, False, kinds, ts, ds, per_task_store=True)
 
 
 @obligation(quick=150, thorough=300, partitions_quick=[f"st == {s}" for s in (0, 1)],
